@@ -11,7 +11,7 @@ CHECKS = {
          "Generated-input search with an explicit totality oracle: every case must return nil from Convert and from Parse+Render with equal bytes, without panic, and within a watchdog bound that is only reported after an isolated reproduction. Exhaustive for all strings of length <= 3 (quick) / 4 (thorough) over a 23-symbol alphabet x 8 configurations, and for line-structured documents (all pairs of 175 line atoms = indentation x line content, plus all triples over 50 atoms in quick / all 175^3 triples in thorough, x 4 configurations); random and coverage-guided beyond. It cannot establish absence for longer inputs.",
          "Trusted: the harness (kit, generators), Go runtime panic recovery; documents are bounded to 16 KiB; the time bound is wall clock (30 s watchdog, 120 s isolated re-run)."),
  "C05": ("property-based testing (rapid) + bounded-exhaustive short strings + native go fuzzing (thorough); oracle: AST invariant validator applied to every node of every parsed tree",
-         "Generated-input search against a validity predicate written from the property statement (child-list consistency, no shared nodes, public kinds in legal places, levels, every segment inside the source, line order, inline text order inside the block's lines). Exhaustive for strings of length <= 3/4 over a 23-symbol alphabet x 4 configurations and for line-structured documents (pairs/triples of line atoms, as in C01) x 2 configurations. A self-test feeds hand-built malformed trees to the validator.",
+         "Generated-input search against a validity predicate written from the property statement (child-list consistency, no shared nodes, public kinds in legal places, levels, every segment inside the source, line order, inline text order inside the block's lines; the label position of an AutoLink, a private field, is read by reflection and checked like a Text segment). Exhaustive for strings of length <= 3/4 over a 23-symbol alphabet x 4 configurations and for line-structured documents (pairs/triples of line atoms, as in C01) x 2 configurations. A self-test feeds hand-built malformed trees to the validator.",
          "Trusted: the validator (oracle/astcheck.go) and its reading of 'legal places'; documents up to 16 KiB."),
  "C03": ("property-based testing (rapid) over HTML/attribute-heavy soup and adversarial fragments in every attribute-bearing position x every safe configuration; native go fuzzing (thorough); oracle: strict HTML tokenizer + fixed vocabulary (tags and per-element attribute names as literal tables, goldmark's filter objects are not consulted) + browser tokenizer agreement + strict XML under XHTML; attribute-name tier (edits and position-wise mixes of vocabulary names)",
          "Generated-input search against a validity predicate over the output: a strict tokenizer that accepts only text, quoted-attribute start tags, end tags, void self-closing tags and the placeholder comment; nesting; tag and attribute vocabulary per configuration; agreement with golang.org/x/net/html's lenient tokenizer; encoding/xml strict parse under XHTML. Fixed good/bad vectors self-test the oracle on every run.",
@@ -26,7 +26,7 @@ CHECKS = {
          "Metamorphic relation from CommonMark 5.1 checked by byte equality on generated documents (soup, line soup, repository inputs, mutations), n-fold nesting up to 3, plus all spec examples against spec.json.",
          "Trusted: the quoting function q and spec.json."),
  "C09": ("property-based testing (rapid), metamorphic relations: concatenation of a closed document, a heading and any document renders as the concatenation; moving a block of reference definitions from top to bottom changes nothing",
-         "Generated pairs with A closed by construction (never by asking goldmark) and documents with spliced references to fresh labels in case/whitespace variants; byte equality.",
+         "Generated pairs with A closed by construction (never by asking goldmark) and documents with spliced references to fresh labels in case/whitespace variants; byte equality. Bounded-exhaustive: every ordered pair of ~70 closed block constructs as (A, B) under every configuration; pathological repeated-unit paragraphs (after cmark's pathological tests) among the closed blocks.",
          "Trusted: the syntactic closedness construction in gen/closed.go; 'no link reference syntax' enforced as 'no [ byte'."),
  "C10": ("property-based testing (rapid), two-pointer aligners over the 8 outputs of the {XHTML, HardWraps, Unsafe} cube (12 edges) admitting only the licensed edit per option; soft-break count and raw-HTML chunks taken from the AST",
          "Generated documents x extension sets (table alignment pinned, East-Asian line-break suppression off); each edge of the option cube is checked with an aligner that accepts only ' />' on void tags, '<br>' before LF (count = rendered soft breaks), placeholder<->raw bytes and empty<->dangerous URL.",
@@ -40,7 +40,7 @@ CHECKS = {
  "C13": ("property-based testing (rapid) of operation sequences as data + bounded-exhaustive enumeration (all sequences of length <= 2 quick / <= 3 thorough over a pool of 4 nodes x 4 initial forests) against a list-of-children reference model (nil, child and foreign references for InsertBefore, InsertAfter and ReplaceChild); walker status scripts against a reference recursion",
          "Model-based testing of the mutation API with the model enforcing the documented preconditions; exhaustive for short sequences.",
          "Trusted: the model in checks/c13; SortChildren judged by a validity predicate; nil reference only for InsertBefore."),
- "C14": ("fault injection: for generated documents every byte offset k (outputs <= 600 bytes) or a dense grid around multiples of 4096 (5-40 KiB outputs) at which the writer starts failing, x writer kinds (plain, caller bufio 16/4096/65536) x API (Convert, Parse+Render) x fault modes x identity of the injected error (private sentinel, io.ErrShortWrite plain and wrapped, io.EOF, io.ErrUnexpectedEOF, io.ErrClosedPipe, a Temporary/Timeout error); oracle: error identity (errors.Is), prefix property, no panic, termination (a fault run that hangs, reproduced in isolation, is a violation), a healthy conversion afterwards agrees with a fresh instance",
+ "C14": ("fault injection: for generated documents every byte offset k (outputs <= 600 bytes) or a dense grid around multiples of 4096 (5-40 KiB outputs) at which the writer starts failing, x writer kinds (plain io.Writer, io.Writer with WriteByte/WriteString/WriteRune, the caller's own unbuffered util.BufWriter implementation without sticky error, caller bufio 16/4096/65536) x API (Convert, Parse+Render) x fault modes x identity of the injected error (private sentinel, io.ErrShortWrite plain and wrapped, io.EOF, io.ErrUnexpectedEOF, io.ErrClosedPipe, a Temporary/Timeout error); oracle: error identity (errors.Is), prefix property, no panic, termination (a fault run that hangs, reproduced in isolation, is a violation), a healthy conversion afterwards agrees with a fresh instance",
          "Enumeration of fault offsets per generated document: exhaustive for small outputs, boundary-dense for large ones.",
          "Trusted: the fault-injecting writer; the injected error is a sentinel compared with errors.Is."),
  "C15": ("property-based testing (rapid) with a heading grammar (repeated/empty/punctuation-only/non-ASCII/suffix-colliding texts, ATX and Setext, containers) x configurations with AutoHeadingID x conversion history on one instance; oracle over the tokenised output: one non-empty id per heading, pairwise distinct, equal to a fresh instance's ids",
@@ -51,18 +51,18 @@ CHECKS = {
          "Trusted: strict HTML tokenizer; id scheme '<prefix>fn:N' / '<prefix>fnrefK:N' as rendered by the extension."),
  "C17": ("property-based testing (rapid) with a table row model (expected shape known by construction) and pipe/dash/colon soup; oracle: one thead/tr, n th, every body row n td, tbody iff rows, per-column alignment, mismatched header => no table; AST side: rows of len(Alignments) cells",
          "Generated row models serialised with optional outer pipes, escaped pipes, containers; and structural rectangularity on soup.",
-         "Trusted: the row model avoids spellings whose cell count is implementation-defined (blank first/last cells, cells ending in a backslash)."),
+         "Trusted: the row model; a blank first / last cell is always written with its outer pipe (then it is a cell between two pipes like any other); cells ending in a backslash before a pipe are avoided."),
  "C18": ("property-based testing (rapid) of call sequences as data on Reader and BlockReader + bounded-exhaustive enumeration (all sources of length <= 3 quick / <= 4 thorough over 7 symbols x all sequences of length <= 3 over 8 core calls x 3 reader shapes) against a flat cursor model (Value compared for whole lines and for every range inside one line, padded or not; segments returned by FindClosure must lie inside the source and end at the closer; a reproduced non-termination is a violation); Segment arithmetic as pure functions",
          "Model-based testing against a cursor model (line, start, remaining padding).",
          "Trusted: the cursor model; LineOffset measured from the reader's own line head; BlockReader.Value compared for whole-line segments and unpadded ranges only."),
- "C19": ("property-based testing (rapid) of algebraic laws + bounded-exhaustive strings (length <= 4 quick / <= 5 thorough over 14 symbols) + all code points for per-rune laws; references built by construction; BytesFilter programs with keys colliding in a bucket and keys colliding in the full 64-bit hash against Go maps; URLEscape laws other than ASCII-purity are checked for every byte string, valid UTF-8 or not",
+ "C19": ("property-based testing (rapid) of algebraic laws + bounded-exhaustive strings (length <= 4 quick / <= 5 thorough over 14 symbols) + all code points for per-rune laws; references built by construction; every one of the 2125 HTML5 entity names against an independent copy of the WHATWG list (Go's html package as second opinion); BytesFilter programs with keys colliding in a bucket and keys colliding in the full 64-bit hash against Go maps; URLEscape laws other than ASCII-purity are checked for every byte string, valid UTF-8 or not",
          "Laws (no forbidden bytes, round trips through html.UnescapeString, idempotence, preservation of %XX, UTF-8 validity, label equivalence under whitespace/SimpleFold) over generated and exhaustively enumerated inputs.",
-         "Trusted: Go's html and unicode packages (pinned toolchain, Unicode 15.0)."),
+         "Trusted: the WHATWG entity list as shipped with Python (oracle/entities_data.go), Go's html and unicode packages (pinned toolchain, Unicode 15.0)."),
  "C20": ("property-based testing (rapid) with probe block/inline parsers, paragraph/AST transformers and node renderers of generated priorities, behaviours and registration channels/orders; oracle: priority-sorted reference dispatch (log and output) and equality with the canonical sorted registration; trees with kinds nobody renders / created after renderer initialisation",
          "Generated registrations against a reference dispatcher written from the documented priority rules; a self-test pins the assumptions about built-in priorities.",
          "Trusted: the reference dispatcher in checks/c20; built-in priorities as documented."),
  "C02": ("property-based testing (rapid): constructed-document model with reference renderer and spelling-choosing serialiser; exhaustive enumeration of the 652 spec examples x licensed rewrites against spec.json; delimiter soup against a reference implementation of the spec's delimiter-run algorithm (validated on 103 spec examples at start-up), on one line and over several lines inside containers spelled with every equivalent prefix",
-         "Three independent oracles, none of which asks goldmark: spec.json's expected HTML for rewritten examples (exhaustive), HTML known by construction for generated document models under any choice of equivalent spellings, and a reference emphasis algorithm for delimiter soup. Comparison modulo whitespace next to block tags (the slack of the spec's own comparison). The serialiser also emits near-miss spellings with an equally fixed meaning (continuation lines indented >= 5 columns that look like block starts, title-like lines followed by text after a definition, a literal backslash before a two-space hard break, labels spread over two lines).",
+         "Three independent oracles, none of which asks goldmark: spec.json's expected HTML for rewritten examples (exhaustive), HTML known by construction for generated document models under any choice of equivalent spellings, and a reference emphasis algorithm for delimiter soup. Comparison modulo whitespace next to block tags (the slack of the spec's own comparison). The serialiser also emits near-miss spellings with an equally fixed meaning (continuation lines indented >= 5 columns that look like block starts, title-like lines followed by text after a definition, a literal backslash before a two-space hard break, labels spread over two lines; link look-alikes - an unescaped '<' or a glued title behind a <...> destination, an unbalanced '(', a space before '(', text after the title; definition look-alikes; '<?>'; '</ div>'; character references one digit over the limits). Constructs and spellings added from independent audits: empty list items, items that begin with indented code, quotes ending in a marker-only line, multi-line definition titles with indented continuation lines, line endings in code spans, autolinks and code spans in image descriptions, inline raw HTML over several lines, labels of 999 one-/two-/three-byte characters, HTML block start condition 7 with tabs, structural indentation spelled as spaces followed by a tab.",
          "Trusted: the document model, reference renderer and serialiser (checks/c02/model,gen,ser), the reference emphasis algorithm (self-tested against spec.json), spec.json itself. The serialiser only emits spellings whose meaning is fixed by construction."),
  "C07": ("generated concurrent workloads (rapid) on fresh shared instances under the Go race detector (-race, GORACE=halt_on_error) with GOMAXPROCS variation and injected runtime.Gosched yields; per-goroutine output equality with the sequential output; fresh-process first-use cases by re-executing the test binary",
          "Generated workloads (2..16 goroutines x 1..6 actions over a document pool covering every node kind) explored under the race detector, which reports unsynchronised conflicting accesses on executed paths irrespective of timing; any report halts the shard and the running workload is the replay.",
